@@ -243,7 +243,7 @@ pub proof fn lemma_release(out: Seq<SortedDltMessage>, hv: Seq<SortedDltMessage>
 //@|        assert(to_ms(outflow.log()).add(heap_ms(&buffer)) =~= to_ms(log0).add(to_ms(ms0.subrange(0, 0))));
 //@|        assert(outflow.log() =~= log0 + msgs_of(out));
 //@|    }
-//@   loop 1 `loop`
+//@   loop inner `inflow.recv()`
 //@|    invariant
 //@|        0 <= k <= ms0.len(), log0 == old(outflow).log(), md == min_buffer_delay_us, hyp == ordered_input(ms0, md),
 //@|        inflow.rem() == ms0.skip(k),
@@ -276,7 +276,7 @@ pub proof fn lemma_release(out: Seq<SortedDltMessage>, hv: Seq<SortedDltMessage>
 //@|    let ghost m0 = m;
 //@   hint before `vx_heap_push(&mut buffer`
 //@|    let ghost e_new = sm;
-//@   hint before `while let Some(sm) = vx_heap_peek(&buffer)`
+//@   hint after `vx_heap_push(&mut buffer`
 //@|    proof {
 //@|        let hv1 = heap_view(&buffer);
 //@|        assert(hv1 == hv0.push(e_new));
@@ -296,7 +296,7 @@ pub proof fn lemma_release(out: Seq<SortedDltMessage>, hv: Seq<SortedDltMessage>
 //@|            }
 //@|        }
 //@|    }
-//@   loop 2 `vx_heap_peek`
+//@   loop inner `vx_heap_peek(&buffer)`
 //@|    invariant
 //@|        0 < k <= ms0.len(), log0 == old(outflow).log(), msg_reception_time_us <= T_B(), md == min_buffer_delay_us, hyp == ordered_input(ms0, md),
 //@|        min_buffer_delay_us <= max_buffer_time_us <= 0x4000_0000_0000_0000, all_bounded(heap_view(&buffer), T_B()),
@@ -329,7 +329,7 @@ pub proof fn lemma_release(out: Seq<SortedDltMessage>, hv: Seq<SortedDltMessage>
 //@|        }
 //@|        out = out.push(e);
 //@|    }
-//@   loop 3 `vx_heap_pop`
+//@   loop inner 2 `vx_heap_pop(&mut buffer)`
 //@|    invariant
 //@|        log0 == old(outflow).log(), hvg == heap_view(&buffer),
 //@|        to_ms(outflow.log()).add(heap_ms(&buffer)) == to_ms(log0).add(to_ms(ms0)), // O:sort.inv.flush
